@@ -1,19 +1,4 @@
 // ---- specification vocabulary for Parser::build_tree ----
-pub open spec fn tomb() -> Event { Event::Open { kind: MySyntaxKind::TombStone, forward_parent: None } }
-pub open spec fn nt_open(e: Event) -> bool { e is Open && e->kind != MySyntaxKind::TombStone }
-// effect of one event on rowan's node stack: a non-tombstone Open starts a node, Close finishes one
-pub open spec fn delta(e: Event) -> int { if nt_open(e) { 1 } else if e is Close { -1 } else { 0 } }
-pub open spec fn pd(evs: Seq<Event>, n: int) -> int
-    decreases n,
-{
-    if n <= 0 { 0 } else { pd(evs, n - 1) + delta(evs[n - 1]) }
-}
-// the stream is one well-nested tree: depth is >= 1 strictly inside and returns to 0 exactly at the end
-pub open spec fn balanced(evs: Seq<Event>) -> bool {
-    &&& evs.len() >= 2
-    &&& pd(evs, evs.len() as int) == 0
-    &&& forall|i: int| 1 <= i < evs.len() ==> #[trigger] pd(evs, i) >= 1
-}
 pub open spec fn tok_view(ts: Seq<Token>, n: int) -> Seq<(u16, Seq<char>)> {
     Seq::new(n as nat, |i: int| (ts[i].kind as u16, ts[i].text@))
 }
